@@ -41,7 +41,16 @@ pub struct History {
 
 /// (argument given to set_path, resource key the registry must use)
 pub const SMALL_PATHS: [(&str, &str); 3] = [("a", "a"), ("b/c", "b/c"), ("x", "x")];
-pub const WIDE_PATHS: [(&str, &str); 7] = [
+/// Segments at and beyond 255 bytes (the RFC 7252 bound for a Uri-Path value,
+/// which the crate does not enforce): the registry keys resources by the whole
+/// path string, so these are three different resources.
+const SEG255: &str = "sssssssssssssssssssssssssssssssssssssssssssssssssssssssssssssssssssssssssssssssssssssssssssssssssssssssssssssssssssssssssssssssssssssssssssssssssssssssssssssssssssssssssssssssssssssssssssssssssssssssssssssssssssssssssssssssssssssssssssssssssssssssssssssss";
+const SEG256X: &str = "sssssssssssssssssssssssssssssssssssssssssssssssssssssssssssssssssssssssssssssssssssssssssssssssssssssssssssssssssssssssssssssssssssssssssssssssssssssssssssssssssssssssssssssssssssssssssssssssssssssssssssssssssssssssssssssssssssssssssssssssssssssssssssssssx";
+const SEG256Y: &str = "sssssssssssssssssssssssssssssssssssssssssssssssssssssssssssssssssssssssssssssssssssssssssssssssssssssssssssssssssssssssssssssssssssssssssssssssssssssssssssssssssssssssssssssssssssssssssssssssssssssssssssssssssssssssssssssssssssssssssssssssssssssssssssssssy";
+pub const WIDE_PATHS: [(&str, &str); 10] = [
+    (SEG255, SEG255),
+    (SEG256X, SEG256X),
+    (SEG256Y, SEG256Y),
     ("a", "a"),
     ("b/c", "b/c"),
     ("", ""),
@@ -798,7 +807,7 @@ pub fn run(ctx: &Ctx, rep: &mut Report, which: Which) {
         ctx,
         rep,
         "random-long-histories",
-        "random histories of up to 200 operations over 6 endpoints x 14 tokens (every length 0..=8, near-identical pairs, prefixes) x 7 paths (with '/', empty, non-ASCII, a leading empty segment, a trailing slash) and limits {0,1,2,3,10,255}; compared with the model after every step; distinct by history hash",
+        "random histories of up to 200 operations over 6 endpoints x 14 tokens (every length 0..=8, near-identical pairs, prefixes) x 10 paths (with '/', empty, non-ASCII, a leading empty segment, a trailing slash, segments of 255 and 256 bytes differing in the last byte) and limits {0,1,2,3,10,255}; compared with the model after every step; distinct by history hash",
         n,
         || {
             (
